@@ -15,13 +15,14 @@ macro("FINV1", ["c", "s"],
       " and not fprog(c, s).shard._shard_writer.closed"
       " and SHARD_OK(fprog(c, s).shard) and fprog(c, s).shard._dataset_path == c._dataset_root_path"
       " and not isdisk(fprog(c, s).shard.shard_info)"
+      " and NOT_ON_DISK(c._dataset_root_path, fprog(c, s).shard.shard_info)"
       # an open shard is not listed anywhere yet (its count still changes)
       " and forall(lambda t, i: implies(t in c._shards_lists and 0 <= i and i < len(c._shards_lists[t].shard_files),"
       "       c._shards_lists[t].shard_files[i] is not fprog(c, s).shard.shard_info), t='U')"
       # an empty open shard carries no label (so a label change never closes an empty shard)
       " and implies(fprog(c, s).written_examples == 0, not truthy(fprog(c, s).shard.shard_info.custom_metadata))")
 macro("FINV", ["c"],
-      "c._examples_per_shard >= 1 and SAFE(c._relative_path_from_split) and CTX_LISTS_OK(c)"
+      "c._examples_per_shard >= 1 and SAFE(c._relative_path_from_split) and CTX_LISTS_OK(c) and DISK_OK(c._dataset_root_path)"
       " and forall(lambda s: implies(s in c._current_shards_progress, FINV1(c, s)), s='U')"
       # distinct splits use distinct progress / shard / info / writer objects
       " and forall(lambda s, t: implies(s in c._current_shards_progress and t in c._current_shards_progress and s != t,"
@@ -58,7 +59,7 @@ contract("sedpack/io/shard/shard_writer_base.py", "ShardWriterBase.write",
 # ---- filler context -----------------------------------------------------------
 contract(MF, CTX + "._get_new_shard", props=["C10", "C11", "C18"],
     params={"split": "U"}, returns="ref:Shard",
-    modifies=["ghost:fs"],
+    modifies=["ghost:fs"], fs_effects=[],      # creates the directory only; no file is touched
     ensures=[
         "result >= old_next_ref()",                       # a fresh object
         "result.shard_info >= old_next_ref()",
